@@ -217,8 +217,11 @@ Clauses(E) ==
     shape    |-> shapeOK,
     budget   |-> ~overBudget,
     state    |-> overBudget \/ stateOK,
-    unchanged |-> Ok \/ ChSlots = {},                 \* a call that raises leaves every slot as it was
-    frame    |-> ~Ok \/ changedOthers = {},           \* a call changes at most its target
+    (* a call that raises leaves every slot as it was - also bit for bit (Ev.raw: slots whose exact serialisation
+       changed) *)
+    unchanged |-> Ok \/ (ChSlots = {} /\ Ev.raw = <<>>),
+    (* a call changes at most its target *)
+    frame    |-> ~Ok \/ (changedOthers = {} /\ {Ev.raw[i] : i \in DOMAIN Ev.raw} \subseteq {tgt}),
     identity |-> \/ ~Ok \/ E.exc \/ E.how \in {"pure", "drop"}
                  \/ IF E.fresh THEN ObsOid(tgt) \notin LiveOids ELSE ObsOid(tgt) = pool[tgt].oid,
     noshare  |-> T.sharing \/ Ev.sh = <<>>,
@@ -254,6 +257,7 @@ DevFor(E, cl) ==
   LET op == Ev.op IN
   IF op = "IAdd" /\ cl = "unchanged" /\ E.exc /\ ~Ok
      /\ RootCompat(pool[Ev.a].d, pool[Ev.b].d) /\ ChSlots \subseteq {Ev.a}
+     /\ {Ev.raw[i] : i \in DOMAIN Ev.raw} \subseteq {Ev.a}
     THEN "Dev_IAddNestedNonAtomic"
   ELSE IF op = "FillNumpy" /\ cl \in {"state", "sem"} /\ Ok
           /\ Strip(ObsC(E.tgt)) = Strip(FoldFillM(pool[Ev.s].c, pool[Ev.s].d, Ev.rows, NumpyWs, "npsum"))
